@@ -351,8 +351,9 @@ func min(a, b int) int {
 }
 
 // edgeStream: the zero-value Array2D, and shapes with a negative width or height. The latter
-// are outside the property (w, h >= 0); they are run so that the model's make-panic branch
-// (new2d, w*h < 0) and the check's constructor-panic arm are exercised against what Go does:
+// are outside the property (w, h >= 0) and are not judged (neither by the oracle nor by
+// check_case); they are run so that the model's make-panic branch (new2d, w*h < 0) and the
+// check's constructor-panic arm are evaluated, and agreement is recorded as a stat:
 // New2D(-1,5) panics in make; New2D(-2,-3) builds an array on which every call panics.
 func edgeStream(c *core.Ctx, ex func(Case)) {
 	probe := func(w, h int) []Op {
@@ -859,15 +860,27 @@ func execE(c *core.Ctx, cs Case, emit bool) {
 	} else {
 		c.Count("shape_thin")
 	}
-	// width or height < 0 is outside the property: whatever Go does there is recorded for the
-	// model comparison (new2d's make panic, or an array on which every call panics), the
-	// property oracle does not judge it
+	// width or height < 0 is outside the property: neither the property oracle nor check_case
+	// judges it. What the transcribed code does there (make panics iff w*h < 0, otherwise an
+	// array of that shape on which every cell access panics) is what the oracle's expectations
+	// below amount to, so agreement is recorded as a stat only.
 	outside := w < 0 || h < 0
+	outsideDiffers := false
 	if outside {
 		c.Count("negative_dims_outside_property")
+		defer func() {
+			if outsideDiffers {
+				c.Count("negative_dims_differs_from_model")
+			} else {
+				c.Count("negative_dims_as_model")
+			}
+		}()
 	}
 	fail := func(what, detail string) {
 		if outside {
+			if what != "constructor panicked" {
+				outsideDiffers = true
+			}
 			return
 		}
 		c.Fail(what, fmt.Sprintf("%dx%d %s%s: %s", w, h, cs.Ctor, cs.T, detail))
@@ -917,6 +930,9 @@ func execE(c *core.Ctx, cs Case, emit bool) {
 			}
 		}
 	})
+	if outside && (kind != "") != (w*h < 0) {
+		outsideDiffers = true
+	}
 	if kind != "" {
 		c.Count("constructor_panicked")
 		fail("constructor panicked", kind)
